@@ -2,6 +2,7 @@ package checks
 
 import (
 	"fmt"
+	"github.com/ericlagergren/decimal"
 	"math"
 	"strconv"
 	"strings"
@@ -67,6 +68,8 @@ func init() {
 	c04Chain = eng.NewKind(c, "chain", judgeChain)
 	c04Data = eng.NewKind(c, "data", judgeDataNum)
 	c04Prov = eng.NewKind(c, "provenance", judgeProv)
+	c04After = eng.NewKind(c, "after-integer-builtins", judgeAfter)
+	c04Share = eng.NewKind(c, "shared-operand", judgeShare)
 }
 
 // value-preserving wrappers: every way a number can be "computed" before it meets an operator
@@ -216,6 +219,78 @@ func checkFloat(src string, data map[string]interface{}, want ref.Dec) *eng.Fail
 	if ulpDiff(got, nearest) > 4 {
 		return eng.F("C04/float-ulp", "%s: returned float64 %v is %v ulp from %v (decimal %s)", src, got, ulpDiff(got, nearest), nearest, want.Plain())
 	}
+	return nil
+}
+
+// AfterCase: an ordinary operation evaluated after another evaluation somewhere else in the process
+// (another runner) used the integer-valued builtins on numbers of every magnitude.
+type AfterCase struct {
+	Pre string `json:"pre"`
+	X   string `json:"x"`
+	Op  string `json:"op"`
+	Y   string `json:"y"`
+}
+
+var c04After *eng.Kind[AfterCase]
+
+func judgeAfter(c AfterCase) *eng.Fail {
+	evalSrc("["+c.Pre+"]", map[string]interface{}{"hi": func(n int64) (int64, error) { return n, nil }}) // whatever it yields
+	f := judgeArith(ArithCase{c.X, c.Op, c.Y})
+	if f != nil && strings.HasPrefix(f.Key, "C04/wrong-") {
+		f.Key = "C04/after-" + opName(c.Op)
+		f.Msg = "after an evaluation of " + c.Pre + " on another runner: " + f.Msg
+	}
+	return f
+}
+
+// ShareCase: a number that several holders share (a local, the operand handed through max / ?: / && / ??,
+// a number object in the caller's data) is negated; every other holder keeps its value.
+type ShareCase struct {
+	Holder string `json:"holder"` // text with %s for the name
+	V      string `json:"v"`
+	Data   bool   `json:"in_data"` // the number is a *decimal.Big in the data map instead of a local
+}
+
+var c04Share *eng.Kind[ShareCase]
+
+func judgeShare(c ShareCase) *eng.Fail {
+	v := parseOperand(c.V)
+	name := "$a"
+	src := "$a = " + c.V + ", "
+	data := map[string]interface{}{"t": true}
+	var obj *decimal.Big
+	if c.Data {
+		name, src = "big", ""
+		obj, _ = new(decimal.Big).SetString(strings.Trim(c.V, "()"))
+		data["big"] = obj
+	}
+	h := strings.Replace(c.Holder, "%s", name, -1)
+	src += "$n = -" + h + ", [" + name + " + $n, " + name + ", " + name + " * 2 + $n, -" + h + " + " + name + ", $n + " + name + "]"
+	o, perr := evalSrc(src, data)
+	if perr != nil {
+		return eng.F("C04/parse", "%s does not parse: %v", src, perr)
+	}
+	if o.panicked || o.err != nil {
+		return eng.F("C04/eval", "%s: %v %s", src, o.err, o.panicMsg)
+	}
+	arr, _ := o.val.([]interface{})
+	if len(arr) != 5 {
+		return eng.F("C04/eval", "%s = %s", src, show(o.val))
+	}
+	zero, _ := ref.ParseDec("0")
+	want := []ref.Dec{zero, v, v, zero, zero}
+	for i, wd := range want {
+		d, ok := decOf(arr[i])
+		if !ok || !d.Finite() || d.Cmp(wd) != 0 {
+			return eng.F("C04/shared-operand", "%s = %s: element %d must be %s (negating a number must not change the other holders of that number)", src, show(o.val), i+1, wd)
+		}
+	}
+	if obj != nil {
+		if d, ok := decOf(obj); !ok || d.Cmp(v) != 0 {
+			return eng.F("C04/shared-operand", "%s: the caller's number object was %s and is %s after the evaluation", src, c.V, show(obj))
+		}
+	}
+	outcome("share " + v.String())
 	return nil
 }
 
@@ -656,6 +731,40 @@ func runC04(w *eng.W) {
 						c04Prov.Do(w, c)
 					}
 				}
+			}
+		}
+	}
+	// the integer-valued builtins (and integer parameters) on numbers of every magnitude, then ordinary
+	// arithmetic whose exact result needs rounding: half-even to 34 digits, whatever ran before
+	for _, pre := range []string{"floor(1e-100)", "ceil(-1e-90)", "toInt(1e-70)", "round(1e-100)", "roundBank(-1e-75)", "roundCash(1e-80, 2)", "left('abc', 1e-70)", "hi(1e-99)", "floor(2.5) + ceil(2.5) + toInt(-2.5)",
+		"floor(-1e-100) + ceil(1e-100)", "1e-100 | 0", "~1e-100", "floor(1e100) + ceil(1e-7000)", "date(1e-70, 1, 1)", "round(0.5) + round(-0.5)", "toInt('1e-80')", "floor(0) + ceil(-0.0)", "floor(1e-64) + floor(1e-65) + floor(1e-66)"} {
+		if !w.Take() {
+			continue
+		}
+		for _, t := range [][3]string{{"2e0", "/", "3e0"}, {"(-2e0)", "/", "3e0"}, {"9999999999999999999999999999999999e0", "+", "6e-1"}, {"1e0", "-", "1e-40"}, {"1e0", "/", "7e0"}, {"(-1e0)", "+", "1e-40"},
+			{"9999999999999999999999999999999999e0", "+", "5e-1"}, {"1000000000000000000000000000000001e0", "*", "15e-1"}, {"(-9999999999999999999999999999999999e0)", "-", "5e-1"}, {"5e0", "/", "6e0"}} {
+			w.State(1)
+			w.Trans(2)
+			w.Trace(1)
+			w.Note("leg:after-integer-builtins", 1)
+			c := AfterCase{pre, t[0], t[1], t[2]}
+			w.Sample("after-integer-builtins", c)
+			c04After.Do(w, c)
+		}
+	}
+	for _, h := range []string{"%s", "max(%s, %s)", "min(%s)", "+%s", "(t ? %s : 0)", "(t && %s)", "(%s ?? 1)", "(0 || %s)", "(%s)", "(0, %s)", "finite(%s)", "toFloat(%s)", "abs(%s)"} {
+		if !w.Take() {
+			continue
+		}
+		for _, v := range []string{"1e-1", "125e-1", "3e0", "1e-40", "9007199254740993e0", "1234567890123456789012345678901234e0", "5e70"} {
+			for _, inData := range []bool{false, true} {
+				w.State(1)
+				w.Trans(1)
+				w.Trace(1)
+				w.Note("leg:shared-operand", 1)
+				c := ShareCase{h, v, inData}
+				w.Sample("shared-operand", c)
+				c04Share.Do(w, c)
 			}
 		}
 	}
